@@ -8,6 +8,7 @@ import (
 	"io"
 	"os"
 	"os/exec"
+	"regexp"
 	"strings"
 	"sync"
 )
@@ -22,6 +23,34 @@ type jobResult struct {
 	Result json.RawMessage `json:"result"`
 	// Poisoned: the worker cannot be used for further jobs (WorkerPoisoned)
 	Poisoned bool `json:"poisoned,omitempty"`
+	// Fatal: the worker gave up on this job and exits (UnderTestFailed)
+	Fatal *V `json:"fatal,omitempty"`
+}
+
+var workerJob = -1
+
+// UnderTestFailed reports that the code under test failed at a place where the
+// harness itself needs it to work (a fault-free set-up step: opening a cache,
+// storing the start state, starting a server, running a batch). That is a
+// defect of the code under test, so it is reported as a violation, not as a
+// harness error. It does not return.
+func UnderTestFailed(format string, args ...any) {
+	what := fmt.Sprintf(format, args...)
+	key := regexp.MustCompile(`/[^\s:"']+`).ReplaceAllString(what, "<path>")
+	if len(key) > 120 {
+		key = key[:120]
+	}
+	v := V{Key: "set-up-failed " + key, What: "the code under test failed in a step the harness relies on (no fault was injected there): " + what, Case: map[string]any{"setup_failure": what}, NoConfirm: true}
+	if IsWorker() {
+		line, _ := json.Marshal(jobResult{Job: workerJob, Result: json.RawMessage("null"), Fatal: &v})
+		os.Stdout.Write(append(line, '\n'))
+		os.Exit(0)
+	}
+	if current == nil {
+		Harness("%s", what)
+	}
+	current.ViolationV(v)
+	current.Finish()
 }
 
 // WorkerPoisoned, when set, is asked after every job whether this worker
@@ -44,6 +73,7 @@ func (r *Run) Sharded(n int, work func(job int) any, merge func(job int, raw jso
 			if _, err := fmt.Sscan(in.Text(), &job); err != nil {
 				continue
 			}
+			workerJob = job
 			res := work(job)
 			raw, err := json.Marshal(res)
 			if err != nil {
@@ -130,6 +160,23 @@ func (r *Run) Sharded(n int, work func(job int) any, merge func(job int, raw jso
 					if err := json.Unmarshal(line, &jr); err != nil {
 						fail <- fmt.Sprintf("worker output on job %d: %v: %q", job, err, line)
 						return
+					}
+					if jr.Fatal != nil {
+						mu.Lock()
+						name := fmt.Sprintf("job %d", job)
+						if r.JobName != nil {
+							name = r.JobName(job)
+						}
+						f := *jr.Fatal
+						f.Key += " (" + name + ")"
+						f.What = name + ": " + f.What
+						r.ViolationV(f)
+						r.inexhaustive = true
+						mu.Unlock()
+						replace = true
+						crashed = true // the worker has exited
+						cmd.Wait()
+						break
 					}
 					mu.Lock()
 					merge(jr.Job, jr.Result)
